@@ -77,6 +77,7 @@ PRIMERS = [(16, 0xC100 + n) for n in (1, 2, 3, 4, 5, 6, 7, 8, 0, 255)] + [(16, 0
 
 
 _CLONE = [0]
+_ALIVE = []
 
 
 def roundtrip(res, table, cls, build, canon, fields, dt=None, dmap=None, ctx=None):
@@ -95,6 +96,20 @@ def roundtrip(res, table, cls, build, canon, fields, dt=None, dmap=None, ctx=Non
         return
     f = obj.frame
     n, v = len(f), f.as_integer
+    # objects stay alive while the next few are built: what a command's frame reads must not change because other commands
+    # (of the same class or another) were constructed afterwards
+    _ALIVE.append((obj, n, v, cls.__name__, repr(canon)))
+    if len(_ALIVE) > 8:
+        o_, n_, v_, cn_, ca_ = _ALIVE.pop(0)
+        res.hit("kept_alive_rechecked")
+        try:
+            now_ = (len(o_.frame), o_.frame.as_integer)
+        except Exception as e:
+            now_ = ("raised", type(e).__name__)
+        if now_ != (n_, v_):
+            res.violation(f"C02/frame-changed-later/{cn_}", f"{cn_}{ca_}: its frame read {v_:#x} when it was built and reads "
+                          f"{now_[1] if isinstance(now_[1], str) else hex(now_[1])} after eight more commands were constructed",
+                          {"cls": cn_, "args": ca_, "frame": v_})
     devtype = cls.devicetype if dt is None else dt
     # the context of a device/instance-scheme event (the instance type the map supplies) is part of the key
     table.put(n, (devtype, ctx), v, (cls.__module__ + "." + cls.__name__,) + tuple(canon))
